@@ -132,6 +132,11 @@ type Spec struct {
 	// OmitStart: write no %start line; only meaningful when the start symbol is
 	// literally named "start" (the documented default)
 	OmitStart bool `json:"omitstart,omitempty"`
+	// EOFAlias: when non-empty, "%token <EOFAlias> -1" is declared: a named
+	// constant for the end marker, as examples/e.y does; not a grammar symbol
+	EOFAlias string `json:"eofalias,omitempty"`
+	// OneLineUnion: the %union body is written on one line, "{ f0 int; f1 int }"
+	OneLineUnion bool `json:"onelineunion,omitempty"`
 	Fields   []string    `json:"fields,omitempty"` // abstract union fields (integers)
 }
 
@@ -359,6 +364,12 @@ func (s *Spec) Render(o RenderOpts) string {
 		pending = append(pending, t)
 	}
 	flush()
+	if s.EOFAlias != "" {
+		w("%token")
+		w(s.EOFAlias)
+		w("-1")
+		nl()
+	}
 	// precedence lines
 	for _, l := range s.Prec {
 		w("%" + l.Assoc)
